@@ -74,6 +74,9 @@ type genEnv struct {
 	usedMapExcl, usedStructExcl, usedTaggedExcl bool
 	// a tuple type was exchanged for one of its pair readings or the reverse (label gen:tuple-vs-pair)
 	usedTuplePair bool
+	// a constructor over a union was exchanged for the union of the constructed types or the reverse
+	// (label gen:union-distribution)
+	usedDist bool
 }
 
 func newEnv(t *rapid.T) *genEnv {
@@ -372,6 +375,12 @@ func (g *genEnv) related(sub TE, d int, p pos) TE {
 	if d >= 1 {
 		add(2, func() TE { return g.te(min(d, 2)) })
 	}
+	if len(distComps(sub)) > 0 {
+		add(5, func() TE { return g.distribute(sub, d) })
+	}
+	if factorable(sub) {
+		add(5, func() TE { return g.factor(sub, d) })
+	}
 	switch sub.K {
 	case kBase:
 		for _, r := range baseRelative[sub.S] {
@@ -635,6 +644,212 @@ func (g *genEnv) tupleSeed() TE {
 	return res
 }
 
+// ---------------------------------------------------------------------------------------------
+// Union distribution: C(Union(A, B), X) versus Union(C(A, X), C(B, X)). The two are the same set of
+// constants when C is a product (pair, tuple, struct field) and differ when C is a collection (list
+// element, map value), whose elements choose their alternative independently.
+
+// comp / withComp address the i-th component of a constructor type (struct: the i-th field type).
+func comp(te TE, i int) TE {
+	if te.K == kStruct {
+		return te.F[i].T
+	}
+	return te.A[i]
+}
+
+func withComp(te TE, i int, r TE) TE {
+	res := te.clone()
+	if te.K == kStruct {
+		res.F[i].T = r
+	} else {
+		res.A[i] = r
+	}
+	return res
+}
+
+// compIdx lists the components of a constructor type over which a union may be moved: list element,
+// pair and tuple components, struct fields, the VALUE type of a map (the key stays as it is).
+func compIdx(te TE) []int {
+	switch te.K {
+	case kList:
+		return []int{0}
+	case kMap:
+		return []int{1}
+	case kPair, kTuple:
+		res := make([]int, len(te.A))
+		for i := range res {
+			res[i] = i
+		}
+		return res
+	case kStruct:
+		res := make([]int, len(te.F))
+		for i := range res {
+			res[i] = i
+		}
+		return res
+	}
+	return nil
+}
+
+// distComps lists the components of te that are unions of two or more alternatives.
+func distComps(te TE) []int {
+	var res []int
+	for _, i := range compIdx(te) {
+		if c := comp(te, i); c.K == kUnion && len(c.A) >= 2 {
+			res = append(res, i)
+		}
+	}
+	return res
+}
+
+// factorable tells whether te is a union of two or more types of ONE constructor that agree in
+// everything a union cannot be moved over (tuple length, map key type, struct labels).
+func factorable(te TE) bool {
+	if te.K != kUnion || len(te.A) < 2 {
+		return false
+	}
+	f := te.A[0]
+	if len(compIdx(f)) == 0 {
+		return false
+	}
+	for _, a := range te.A[1:] {
+		if a.K != f.K || len(a.A) != len(f.A) || len(a.F) != len(f.F) {
+			return false
+		}
+		if f.K == kMap && a.A[0].String() != f.A[0].String() {
+			return false
+		}
+		for i := range f.F {
+			if a.F[i].L != f.F[i].L {
+				return false
+			}
+		}
+	}
+	return true
+}
+
+func isDistPos(sub TE) bool { return len(distComps(sub)) > 0 || factorable(sub) }
+
+// distribute turns C(..., Union(A, B), ...) into Union(C(..., A, ...), C(..., B, ...)); in half of
+// the draws one alternative of the result then has that component exchanged for a wider or narrower
+// one, or one alternative of the result is dropped, so that the two forms are relatives rather than
+// equals. sub unchanged if the result would be deeper than d.
+func (g *genEnv) distribute(sub TE, d int) TE {
+	idx := distComps(sub)
+	if len(idx) == 0 {
+		return sub.clone()
+	}
+	i := idx[rapid.IntRange(0, len(idx)-1).Draw(g.t, "distcomponent")]
+	res := TE{K: kUnion}
+	for _, a := range comp(sub, i).A {
+		res.A = append(res.A, withComp(sub, i, a.clone()))
+	}
+	switch rapid.IntRange(0, 5).Draw(g.t, "distvariation") {
+	case 0, 1:
+		j := rapid.IntRange(0, len(res.A)-1).Draw(g.t, "distalt")
+		res.A[j] = withComp(res.A[j], i, g.step(comp(res.A[j], i)))
+	case 2:
+		if len(res.A) > 2 {
+			j := rapid.IntRange(0, len(res.A)-1).Draw(g.t, "distdrop")
+			res.A = append(res.A[:j:j], res.A[j+1:]...)
+		}
+	}
+	if res.depth() > d {
+		return sub.clone()
+	}
+	g.usedDist = true
+	return res
+}
+
+// factor turns Union(C(A, X), C(B, Y)) into C(Union(A, B), Union(X, Y)) (equal components are not
+// repeated); in a third of the draws one alternative of one new union is then exchanged for a wider
+// or narrower one. sub unchanged if the result would be deeper than d.
+func (g *genEnv) factor(sub TE, d int) TE {
+	if !factorable(sub) {
+		return sub.clone()
+	}
+	res := sub.A[0].clone()
+	var unions []int
+	for _, i := range compIdx(res) {
+		var alts []TE
+		seen := map[string]bool{}
+		for _, a := range sub.A {
+			c := comp(a, i)
+			if k := c.String(); !seen[k] {
+				seen[k] = true
+				alts = append(alts, c.clone())
+			}
+		}
+		if len(alts) > 1 {
+			res = withComp(res, i, union(alts...))
+			unions = append(unions, i)
+		}
+	}
+	if len(unions) > 0 && rapid.IntRange(0, 2).Draw(g.t, "factorvariation") == 0 {
+		i := unions[rapid.IntRange(0, len(unions)-1).Draw(g.t, "factorcomponent")]
+		u := comp(res, i).clone()
+		j := rapid.IntRange(0, len(u.A)-1).Draw(g.t, "factoralt")
+		u.A[j] = g.step(u.A[j])
+		res = withComp(res, i, u)
+	}
+	if res.depth() > d {
+		return sub.clone()
+	}
+	g.usedDist = true
+	return res
+}
+
+// distSeed draws a constructor type over a union of two or three leaves - a list or map (value) in
+// half of the draws, else a pair or tuple - in its factored or (half of the draws) its distributed
+// form, bare or inside a list or union.
+func (g *genEnv) distSeed() TE {
+	n := rapid.IntRange(2, 3).Draw(g.t, "ndistalts")
+	u := TE{K: kUnion}
+	seen := map[string]bool{}
+	for tries := 0; len(u.A) < n && tries < 8; tries++ {
+		if l := g.leaf(); !seen[l.String()] {
+			seen[l.String()] = true
+			u.A = append(u.A, l)
+		}
+	}
+	for len(u.A) < 2 {
+		u.A = append(u.A, base([]string{"/number", "/string"}[len(u.A)]))
+	}
+	var res TE
+	switch rapid.IntRange(0, 7).Draw(g.t, "distctor") {
+	case 0, 1, 2:
+		res = listT(u)
+	case 3:
+		res = mapT(g.key(0), u)
+	case 4:
+		res = pairT(u, g.leaf())
+	case 5:
+		res = pairT(g.leaf(), u)
+	case 6:
+		res = pairT(u, union(g.leaf(), g.leaf()))
+	default:
+		cs := []TE{g.leaf(), g.leaf(), g.leaf()}
+		cs[rapid.IntRange(0, 2).Draw(g.t, "distcomponent")] = u
+		res = tupleT(cs...)
+	}
+	if res.depth() > 2 { // a deep key type
+		res = listT(u)
+	}
+	if rapid.Bool().Draw(g.t, "distributed") {
+		res = g.distribute(res, maxDepth)
+	}
+	g.usedDist = true
+	switch rapid.IntRange(0, 5).Draw(g.t, "wrap") {
+	case 0:
+		return listT(res)
+	case 1:
+		if res.K != kUnion {
+			return union(res, g.leaf())
+		}
+	}
+	return res
+}
+
 // derive exchanges one sub-expression of b for a related one.
 func (g *genEnv) derive(b TE) TE {
 	ps := g.positions(b)
@@ -648,6 +863,28 @@ func (g *genEnv) derive(b TE) TE {
 	if len(mix) > 0 && rapid.IntRange(0, 2).Draw(g.t, "tuple-vs-pair?") == 0 {
 		p := mix[rapid.IntRange(0, len(mix)-1).Draw(g.t, "mixposition")]
 		res := replaceAt(b, p.path, g.tuplePair(at(b, p.path), maxDepth-len(p.path)))
+		if res.depth() <= maxDepth {
+			return res
+		}
+	}
+	// likewise a third of the derivations of a type with a constructor over a union (or a union of
+	// types of one constructor) inside exchange that position for its distributed / factored form
+	var dist []pos
+	for _, p := range ps {
+		if !p.variant && !(p.key && g.mapExcl) && isDistPos(at(b, p.path)) {
+			dist = append(dist, p)
+		}
+	}
+	if len(dist) > 0 && rapid.IntRange(0, 2).Draw(g.t, "union-distribution?") == 0 {
+		p := dist[rapid.IntRange(0, len(dist)-1).Draw(g.t, "distposition")]
+		sub := at(b, p.path)
+		var r TE
+		if factorable(sub) && (len(distComps(sub)) == 0 || rapid.Bool().Draw(g.t, "factor?")) {
+			r = g.factor(sub, maxDepth-len(p.path))
+		} else {
+			r = g.distribute(sub, maxDepth-len(p.path))
+		}
+		res := replaceAt(b, p.path, r)
 		if res.depth() <= maxDepth {
 			return res
 		}
@@ -698,6 +935,7 @@ type genInfo struct {
 	derived   int
 	copies    int
 	tuplePair bool
+	dist      bool
 }
 
 func genCase(t *rapid.T) (Case, genInfo) {
@@ -705,9 +943,12 @@ func genCase(t *rapid.T) (Case, genInfo) {
 	var info genInfo
 	n := rapid.IntRange(2, 4).Draw(t, "ntypes")
 	var tes []TE
-	if rapid.IntRange(0, 7).Draw(t, "tuplefirst") == 0 {
+	switch rapid.IntRange(0, 7).Draw(t, "firstshape") {
+	case 1:
 		tes = append(tes, g.tupleSeed())
-	} else {
+	case 2:
+		tes = append(tes, g.distSeed())
+	default:
 		tes = append(tes, g.te(maxDepth))
 	}
 	for i := 1; i < n; i++ {
@@ -728,6 +969,7 @@ func genCase(t *rapid.T) (Case, genInfo) {
 		c.Types = append(c.Types, TypeSpec{Mode: modes[rapid.IntRange(0, len(modes)-1).Draw(t, "mode")], T: g.sanitize(te)})
 	}
 	info.tuplePair = g.usedTuplePair
+	info.dist = g.usedDist
 	if g.usedMapExcl {
 		info.excluded = append(info.excluded, exclMapKey)
 	}
